@@ -123,6 +123,13 @@ Proof.
   - destruct bd; cbn [var_indices]; [right|]; auto.
 Qed.
 
+Lemma var_indices_In_inv b i : In i (var_indices b) -> exists x, In (x, BVar i) b.
+Proof.
+  induction b as [|[y [k|]] b IH]; cbn [var_indices]; [intros []| |].
+  - intros [<-|H]; [exists y; cbn; now left|]. destruct (IH H) as [x Hx]. exists x. cbn. now right.
+  - intros H. destruct (IH H) as [x Hx]. exists x. cbn. now right.
+Qed.
+
 Lemma renumber_total keep b :
   (forall i, In i (var_indices b) -> In i keep) -> exists b', renumber keep b = Val b'.
 Proof.
@@ -254,7 +261,7 @@ Section Proofs.
   Qed.
 
   Lemma keep_indices_In b x i : In (x, BVar i) b -> In i (keep_indices b).
-  Proof. intros H. unfold keep_indices. apply sort_In. eapply var_indices_In; eassumption. Qed.
+  Proof. intros H. unfold keep_indices. apply (proj2 (sort_In _ _)). eapply var_indices_In; eassumption. Qed.
 
   (* (3) orphan release preserves alignment *)
   Lemma release_aligned val (s : @session V) :
@@ -306,6 +313,9 @@ Section Proofs.
     rewrite <- !vars_of_indices. induction HF as [|p q l l' [_ Hpq] _ IH]; cbn; constructor; assumption.
   Qed.
 
+  Lemma Forall2_len {A B} (R : A -> B -> Prop) l l' : Forall2 R l l' -> length l = length l'.
+  Proof. induction 1; cbn; congruence. Qed.
+
   Lemma Forall2_In_r {A B} (R : A -> B -> Prop) l l' y :
     Forall2 R l l' -> In y l' -> exists x, In x l /\ R x y.
   Proof.
@@ -329,16 +339,17 @@ Section Proofs.
     intros Hr. pose proof (renumber_var_indices _ _ _ Hr) as HF.
     unfold local_count. set (keep := keep_indices b) in *.
     assert (Hlen : length (var_indices b') = length keep).
-    { rewrite <- (Forall2_length HF). unfold keep, keep_indices. now rewrite sort_length. }
+    { rewrite <- (Forall2_len _ _ _ HF). unfold keep, keep_indices. now rewrite sort_length. }
     destruct (var_indices b') as [|j0 js] eqn:Ejs.
     - cbn in Hlen. lia.
-    - rewrite <- Ejs in *. clear j0 js Ejs.
-      assert (Hne : keep <> []) by (intros E; rewrite E in Hlen; destruct (var_indices b'); discriminate).
+    - assert (Hpos : 0 < length keep) by (rewrite <- Hlen; cbn; lia).
+      rewrite <- Ejs in HF |- *. clear Hlen.
+      assert (Hne : keep <> []) by (intros E; rewrite E in Hpos; cbn in Hpos; lia).
       assert (Hs : sorted keep) by apply sort_sorted.
       set (M := last keep 0).
       assert (HM : nth_error keep (length keep - 1) = Some M) by (apply last_nth; assumption).
       assert (HMin : In M (var_indices b)).
-      { apply sort_In. fold (keep_indices b). fold keep. eapply nth_error_In; eassumption. }
+      { apply (proj1 (sort_In _ _)). fold (keep_indices b). fold keep. eapply nth_error_In; eassumption. }
       destruct (Forall2_In_l _ _ _ _ HF HMin) as (jM & HjM & HmapM).
       apply index_mapping_spec in HmapM. destruct HmapM as [HnM HlastM].
       assert (HjMeq : jM = length keep - 1).
@@ -350,7 +361,7 @@ Section Proofs.
         apply index_mapping_spec in Hm. destruct Hm as [Hn _].
         assert (j < length keep) by (apply nth_error_Some; congruence). lia. }
       pose proof (fold_max_ge _ _ HjM) as Hlb.
-      assert (0 < length keep) by (destruct keep; [congruence|cbn; lia]). lia.
+      lia.
   Qed.
 
   Definition in_range (s : @session V) : Prop :=
@@ -372,14 +383,11 @@ Section Proofs.
   Proof.
     intros Hr. unfold compact. set (keep := keep_indices (s_bindings s)).
     destruct (renumber_total keep (s_bindings s)) as [b' Hb'].
-    { intros i Hi. unfold keep, keep_indices. now apply sort_In. }
+    { intros i Hi. unfold keep, keep_indices. now apply (proj2 (sort_In _ _)). }
     rewrite Hb'.
     destruct (gather_spec (s_locals s) keep) as (ls' & Hg & Hlen & Hnth).
-    { intros i Hi. unfold keep, keep_indices in Hi. apply sort_In in Hi.
-      clear -Hi Hr. unfold in_range in Hr. induction (s_bindings s) as [|[x [k|]] b IH]; [destruct Hi| |].
-      - destruct Hi as [<-|Hi]; [apply (Hr x); cbn; now left|]. apply IH; [assumption|].
-        intros y j Hy. apply (Hr y). cbn. now right.
-      - apply IH; [assumption|]. intros y j Hy. apply (Hr y). cbn. now right. }
+    { intros i Hi. unfold keep, keep_indices in Hi. apply (proj1 (sort_In _ _)) in Hi.
+      destruct (var_indices_In_inv _ _ Hi) as [x Hx]. exact (Hr x i Hx). }
     rewrite Hg. exists b', ls'. repeat split; try assumption.
     rewrite Hlen. now apply compact_local_count.
   Qed.
@@ -398,3 +406,69 @@ Section Proofs.
     rewrite (Hnth _ _ Hn). now apply Ha.
   Qed.
 End Proofs.
+
+Section Lines.
+  Context {V : Type}.
+  Variable vnil : V.
+
+  (* What the compiler and the VM must deliver for the bookkeeping to stay aligned: every variable
+     of the new map is either an old variable at its compacted slot with its old value, or lives
+     in a slot at or after the line's parameter slot n (= local_count = physical length after
+     compaction) that the line really stored (the parameter, i.e. the previous result, or one of
+     the line's own stores; only a line with expressions runs at all).  A short-circuited line that binds a variable it never stored (F51)
+     fails the last clause. *)
+  Definition line_wf (s1 : @session V) (c : compiled) (r : @ran V) (val val' : name -> V) : Prop :=
+    forall x i, In (x, BVar i) (c_bindings c) ->
+      (i < length (s_locals s1) /\ In (x, BVar i) (s_bindings s1) /\ val' x = val x) \/
+      (c_has_expr c = true /\ length (s_locals s1) <= i /\
+       nth_error (s_result s1 :: r_stored r) (i - length (s_locals s1)) = Some (val' x)).
+
+  (* (2) a successful line *)
+  Lemma line_aligned val val' (s1 : @session V) c r :
+    aligned val s1 -> line_wf s1 c r val val' -> c_has_expr c = true ->
+    aligned val' (mkSession (c_bindings c)
+                   (release_orphan_locals vnil (s_locals s1 ++ s_result s1 :: r_stored r) (keep_indices (c_bindings c)))
+                   (r_value r) (c_result_nil c)).
+  Proof.
+    intros Ha Hwf _ x i Hin. cbn [s_bindings s_locals] in *.
+    rewrite release_keeps by (eapply keep_indices_In; eassumption).
+    destruct (Hwf x i Hin) as [(Hlt & Hold & Hv)|(_ & Hge & Hn)].
+    - rewrite nth_error_app1 by assumption. rewrite Hv. now apply Ha.
+    - rewrite nth_error_app2 by assumption. exact Hn.
+  Qed.
+
+  (* the parameter of a line is the stored result of the previous one (worker.rs:467-469) *)
+  Lemma line_parameter_is_previous_result (s1 : @session V) c r :
+    nth_error (s_locals (run_line_unreleased s1 c r)) (length (s_locals s1)) = Some (s_result s1).
+  Proof. cbn. rewrite nth_error_app2 by lia. now rewrite Nat.sub_diag. Qed.
+
+  (* repl_alignment: the invariant through a whole `evaluate`, whatever the line is *)
+  Theorem repl_alignment_thm val (s : @session V) (l : line) :
+    aligned val s ->
+    match l with
+    | LParseError => evaluate vnil s l = EParseError s
+    | LCompileError => exists s1, evaluate vnil s l = ECompileError s1 /\ aligned val s1
+    | LOk c r =>
+        exists s1, compact s = COk s1 /\ aligned val s1 /\
+                   local_count (s_bindings s1) = length (s_locals s1) /\
+        forall val', line_wf s1 c r val val' ->
+          if c_has_expr c
+          then exists s', evaluate vnil s l = EValue (r_value r) s' /\ aligned val' s' /\ s_result s' = r_value r
+          else exists s', evaluate vnil s l = ENone s' /\ aligned val' s' /\ s_result s' = s_result s
+    end.
+  Proof.
+    intros Ha. destruct l as [| |c r].
+    - reflexivity.
+    - destruct (compact_aligned val s Ha) as (s1 & Hc & Ha1 & _). exists s1. cbn. now rewrite Hc.
+    - destruct (compact_aligned val s Ha) as (s1 & Hc & Ha1 & Hres & _ & Hlc).
+      exists s1. repeat split; try assumption. intros val' Hwf. cbn [evaluate]. rewrite Hc.
+      destruct (c_has_expr c) eqn:Ehe.
+      + eexists. split; [reflexivity|]. split; [|reflexivity]. now apply line_aligned.
+      + eexists. split; [reflexivity|]. split; [|now cbn].
+        intros x i Hin. cbn [s_bindings s_locals] in *.
+        destruct (Hwf x i Hin) as [(Hlt & Hold & Hv)|(Hhe & _)].
+        * rewrite Hv. now apply Ha1.
+        * (* a line without expressions stores nothing: it cannot introduce a variable *)
+          congruence.
+  Qed.
+End Lines.
